@@ -226,6 +226,7 @@ def PStepOk (s : RbP) (q : List (List Nat)) (op : POp) : Prop :=
       (absP s q).step s.rb.ow op = some (absP s' q', o)
 
 theorem pstep_base_nonwrite {s : RbP} {q TR} (h : PInv s q TR) (op : Op) (hop : ∀ d, op ≠ .write d)
+    (hop2 : op ≠ .free)
     (hok : ∃ q' TR', Inv (s.rb.step op).1 q' TR' ∧ (s.rb.step op).1.ow = s.rb.ow ∧
       (absF s.rb q).step op = (absF (s.rb.step op).1 q', (s.rb.step op).2)) :
     PStepOk s q (.base op) := by
@@ -238,7 +239,8 @@ theorem pstep_base_nonwrite {s : RbP} {q TR} (h : PInv s q TR) (op : Op) (hop : 
     intro ow
     cases op with
     | write d => exact absurd rfl (hop d)
-    | _ => rfl
+    | free => exact absurd rfl hop2
+    | _ => cases ow <;> rfl
   unfold PStepOk
   rw [hs]
   simp only
@@ -258,6 +260,15 @@ theorem pstep_base_nonwrite {s : RbP} {q TR} (h : PInv s q TR) (op : Op) (hop : 
     exact (h.room n hn).mono (by simpa [absF] using hle) (Nat.le_refl _)
   · rw [hf, hstep]
     rfl
+
+theorem pstep_free {s : RbP} {q TR} (h : PInv s q TR) : PStepOk s q (.base .free) := by
+  unfold PStepOk
+  have hs : s.step (.base .free) = some (⟨s.rb, s.pend⟩, .num s.rb.spaceFree) := rfl
+  rw [hs]
+  refine ⟨q, TR, ⟨h.inv, h.room⟩, rfl, ?_⟩
+  cases how : s.rb.ow with
+  | false => simp [FifoP.step, absP, Fifo.step, absF, spaceFree_eq_normal h.inv how]
+  | true => simp [FifoP.step, absP, Fifo.owStep, absF, spaceFree_eq_ow h.inv how, owFree]
 
 theorem pstep_sim {s : RbP} {q TR} (h : PInv s q TR) (op : POp) : PStepOk s q op := by
   cases op with
@@ -281,10 +292,10 @@ theorem pstep_sim {s : RbP} {q TR} (h : PInv s q TR) (op : POp) : PStepOk s q op
           obtain ⟨q', TR', hi, how', hstep⟩ := step_write_ow h.inv how d
           refine ⟨q', TR', ⟨hi, by intro n hn; simp at hn⟩, by rw [how', how], ?_⟩
           simp [FifoP.step, absP, hp, hstep]
-    | read cap => exact pstep_base_nonwrite h _ (by intro d; simp) (step_read h.inv cap)
-    | peek => exact pstep_base_nonwrite h _ (by intro d; simp) (step_peek h.inv)
-    | reclaim => exact pstep_base_nonwrite h _ (by intro d; simp) (step_reclaim h.inv)
-    | free => exact pstep_base_nonwrite h _ (by intro d; simp) (step_free h.inv)
+    | read cap => exact pstep_base_nonwrite h _ (by intro d; simp) (by simp) (step_read h.inv cap)
+    | peek => exact pstep_base_nonwrite h _ (by intro d; simp) (by simp) (step_peek h.inv)
+    | reclaim => exact pstep_base_nonwrite h _ (by intro d; simp) (by simp) (step_reclaim h.inv)
+    | free => exact pstep_free h
   | alloc n =>
     unfold PStepOk
     cases hp : s.pend with
@@ -293,7 +304,7 @@ theorem pstep_sim {s : RbP} {q TR} (h : PInv s q TR) (op : POp) : PStepOk s q op
       have h2 := cw_ge n
       cases how : s.rb.ow with
       | false =>
-        have hf : s.rb.spaceFree = (absF s.rb q).free := spaceFree_eq h.inv
+        have hf : s.rb.spaceFree = (absF s.rb q).free := spaceFree_eq_normal h.inv how
         by_cases hc : s.rb.spaceFree < n + MARGIN
         · have hs : s.step (.alloc n) = some (⟨s.rb, none⟩, .err .eagain) := by
             simp [RbP.step, hp, alloc_normal s.rb n how, hc]
@@ -314,22 +325,22 @@ theorem pstep_sim {s : RbP} {q TR} (h : PInv s q TR) (op : POp) : PStepOk s q op
           · simp only [allocHdr_ow]; exact how
           · simp [FifoP.step, absP, hp, ← hf, hc, absF_allocHdr]
       | true =>
-        obtain ⟨TR', hi, hsem, hW, how', hok⟩ := makeRoom_sim h.inv n s.rb.W h.inv.length_lt
-        have hokd := owDrop_ok (W := s.rb.W) (len := n) (q := q) (sem := s.rb.sem)
+        obtain ⟨TR', hi, hsem, hW, how', hok⟩ := makeRoom_sim h.inv how n s.rb.W h.inv.length_lt
+        have hokd := owDrop_ok (W := s.rb.W) (len := n) (q := q)
         have hs0 : s.step (.alloc n) = match s.rb.alloc n with
             | (r', some e) => some (⟨r', none⟩, .err e)
             | (r1, none) => some (⟨r1, some n⟩, .unit) := by
           simp only [RbP.step, hp, Option.isSome_none]
           rfl
-        have hfs0 : (absP s q).step true (.alloc n) = match owDrop s.rb.W n q s.rb.sem with
-            | (q', sem', false) => some (⟨⟨s.rb.W, q', sem'⟩, none⟩, .err .einval)
-            | (q', sem', true) => some (⟨⟨s.rb.W, q', sem'⟩, some n⟩, .unit) := by
+        have hfs0 : (absP s q).step true (.alloc n) = match owDrop s.rb.W n q with
+            | (q', false) => some (⟨⟨s.rb.W, q', s.rb.sem⟩, none⟩, .err .einval)
+            | (q', true) => some (⟨⟨s.rb.W, q', s.rb.sem⟩, some n⟩, .unit) := by
           simp only [FifoP.step, absP, hp, absF]
           rfl
         rw [hs0, hfs0, alloc_ow s.rb n how]
         revert hi hsem hW how' hok hokd
         rcases s.rb.makeRoom n s.rb.W with ⟨r', b⟩
-        rcases owDrop s.rb.W n q s.rb.sem with ⟨q', sem', ok⟩
+        rcases owDrop s.rb.W n q with ⟨q', ok⟩
         intro hi hsem hW how' hok hokd
         simp only at hi hsem hW how' hok hokd
         subst hok
@@ -341,7 +352,7 @@ theorem pstep_sim {s : RbP} {q TR} (h : PInv s q TR) (op : POp) : PStepOk s q op
         | true =>
           simp only
           have hroom : Room r'.W (total q') (cw n) := by
-            rw [hW]; exact room_of_free (hokd rfl)
+            rw [hW]; exact room_of_free (sem := none) (hokd rfl)
           refine ⟨q', TR', ⟨allocHdr_inv hi (by unfold Room at hroom; omega), ?_⟩, ?_, ?_⟩
           · intro n' hn'
             simp only [Option.some.injEq] at hn'
